@@ -124,7 +124,13 @@ def _build_arr(spec):
   dtype, shape, layout = spec['dtype'], tuple(spec['shape']), spec['layout']
   a = _logical(dtype, shape, spec['bits'])
   if spec.get('jax'):
+    import jax
     import jax.numpy as jnp
+    form = spec.get('jaxform')
+    if form == 'weak':           # weakly typed 0-d array made from a python scalar
+      return jnp.asarray(a[()].item())
+    if form == 'jit':            # output buffer of a jitted computation
+      return jax.jit(lambda v: v)(jnp.asarray(a))
     return jnp.asarray(a)
   if spec['order'] == 'swapped':
     a = a.byteswap().view(a.dtype.newbyteorder('>'))
@@ -202,6 +208,8 @@ def _build(spec):
     return complex(f(spec['re']), f(spec['im']))
   if t == 'other':
     return _build_other(spec)
+  if t == 'extra':
+    return np.frombuffer(bytes.fromhex(spec['hex']), dtype=_extra_dtype(spec['dtype'])).reshape(spec['shape']).copy()
   if t == 'npother':
     k = spec['k']
     if k == 'str':
@@ -263,7 +271,8 @@ def _observe(y):
         elems.append(e.hex() if type(e) is bytes else {'nb': type(e).__name__})
       return {'t': 'obj', 'shape': list(y.shape), 'elems': elems}
     if y.dtype.name not in WIDTH or y.dtype.names is not None:
-      return {'t': 'other', 'name': y.dtype.name, 'shape': list(y.shape)}
+      return {'t': 'other', 'name': y.dtype.name, 'shape': list(y.shape), 'dtype_str': str(y.dtype),
+              'hex': (y.tobytes().hex() if not y.dtype.hasobject and y.dtype.isnative else None)}
     return {'t': 'arr', 'dtype': y.dtype.name, 'native': bool(y.dtype.isnative), 'shape': list(y.shape),
             'bits': _arr_bits(y)}
   if isinstance(y, np.generic):
@@ -496,6 +505,44 @@ def _jax_leaves():
   for dt in ('int8', 'int32', 'uint8', 'uint32', 'float16', 'bfloat16', 'float32', 'complex64', 'bool'):
     for shape in ([], [0], [3], [2, 0], [2, 3]):
       yield arr_spec(dt, 'native', 'C', shape, jax=True)
+  for dt, bits in (('float32', 0x3fc00000), ('float32', 0x80000000), ('int32', 7), ('int32', 0), ('bool', 1), ('complex64', 0x400000003fc00000)):
+    yield {**arr_spec(dt, 'native', 'C', [], jax=True), 'bits': [bits], 'jaxform': 'weak'}
+  for dt in ('int32', 'float32', 'bfloat16', 'bool'):
+    for shape in ([], [0], [2, 3]):
+      yield {**arr_spec(dt, 'native', 'C', shape, jax=True), 'jaxform': 'jit'}
+
+
+EXTRA_DTYPES = ['datetime64[D]', 'datetime64[ns]', 'timedelta64[s]', 'float128', 'complex256', 'float8_e4m3fn', 'int4', 'uint4']
+
+
+def _extra_dtype(name):
+  import ml_dtypes
+  return np.dtype(getattr(ml_dtypes, name)) if hasattr(ml_dtypes, name) else np.dtype(name)
+
+
+def _extra_leaves():
+  """dtypes outside the property's list: no claim that they are accepted, but whatever comes back must be unaltered."""
+  for name in EXTRA_DTYPES:
+    dt = _extra_dtype(name)
+    for shape in ([], [0], [3], [2, 2]):
+      n = _prod(shape)
+      raw = bytes((17 * i + 3) % 251 for i in range(n * dt.itemsize))
+      if name in ('int4', 'uint4'):
+        raw = bytes(b % 8 for b in raw)
+      if name in ('float128', 'complex256'):
+        raw = np.arange(1, n * (2 if name == 'complex256' else 1) + 1).astype(np.longdouble).tobytes()
+      yield {'t': 'extra', 'dtype': name, 'shape': shape, 'hex': raw.hex()}
+
+
+def _falsy_trees():
+  e = lambda: {'t': 'dict', 'items': []}
+  l = lambda: {'t': 'list', 'items': []}
+  yield e()
+  yield l()
+  yield {'t': 'dict', 'items': [['a', e()], ['b', l()], ['', {'t': 'list', 'items': [l()]}]]}
+  yield {'t': 'list', 'items': [e(), l(), {'t': 'none'}, {'t': 'int', 'v': '0'}, {'t': 'float', 'bits': 0}, {'t': 'bool', 'v': False},
+                                {'t': 'str', 'v': ''}, {'t': 'bytes', 'hex': ''}, arr_spec('int32', 'native', 'C', [0]),
+                                {'t': 'obj', 'shape': [0], 'elems': []}]}
 
 
 def _sqlite_cases(rng, n):
@@ -586,8 +633,11 @@ def generate(tier, rng):
   for s in leaves:
     yield {'kind': 'tree', 'tree': s}
   objs, unsup, scal, jaxl = list(_obj_leaves()), list(_unsupported_leaves()), list(_scalar_leaves()), list(_jax_leaves())
-  for s in objs + unsup + scal + jaxl:
+  for s in objs + unsup + scal + jaxl + list(_falsy_trees()):
     yield {'kind': 'tree', 'tree': s}
+  for s in _extra_leaves():
+    yield {'kind': 'tree', 'tree': s}
+    yield {'kind': 'tree', 'tree': {'t': 'dict', 'items': [['k', s], ['n', {'t': 'int', 'v': '1'}]]}}
   # nesting depth 1..3 over supported leaves, then with one unsupported leaf somewhere
   pool = _small_arrays(rng) + objs + scal + jaxl[:6]
   for i in range(n_rand):
@@ -603,6 +653,12 @@ def generate(tier, rng):
     yield c
   for c in _ckptseq_cases(rng, {'quick': 40, 'thorough': 250, 'search': 100}[tier]):
     yield c
+  # falsy-but-valid states: they must come back (not be mistaken for "no checkpoint")
+  for i, t in enumerate([{'t': 'none'}, {'t': 'int', 'v': '0'}, {'t': 'float', 'bits': 0}, {'t': 'bool', 'v': False}, {'t': 'str', 'v': ''},
+                         {'t': 'bytes', 'hex': ''}, {'t': 'dict', 'items': []}, {'t': 'list', 'items': []},
+                         arr_spec('float32', 'native', 'C', [0]), arr_spec('int32', 'native', 'C', [], jax=True)]):
+    yield {'kind': 'ckpt', 'api': ('state', 'checkpoint')[i % 2], 'tree': t, 'round': (0, 3)[i % 3 == 0], 'keep': 1}
+    yield {'kind': 'ckpt', 'api': ('checkpoint', 'state')[i % 2], 'tree': t, 'round': 0, 'keep': 2}
   for i in range({'quick': 6, 'thorough': 30, 'search': 10}[tier]):
     yield {'kind': 'ckpt', 'api': ('state', 'checkpoint')[i % 2], 'tree': _state_spec(rng, jaxy=(i % 3 != 2)),
            'round': rng.choice([0, 1, 7, 99999999]), 'keep': rng.choice([1, 2])}
@@ -666,6 +722,7 @@ def _run_tree(case):
   _check_built(spec, obj)
   obs = {'input': _describe_input(spec, obj)}
   sink = io.StringIO()
+  sig_before = _container_sig(obj)
   try:
     with contextlib.redirect_stdout(sink):
       data = serialization.msgpack_serialize(obj)
@@ -682,9 +739,45 @@ def _run_tree(case):
   except Exception as ex:  # pylint: disable=broad-except
     obs.update(status='des-error', err=_err(ex))
     return obs
-  obs.update(status='ok', value=_observe(back), stable=(_observe(again) == _observe(back)),
-             input_after=(_observe_input_unchanged(spec, obj)))
+  first = _observe(back)
+  obs.update(status='ok', value=first, stable=(_observe(again) == first),
+             input_after=(_observe_input_unchanged(spec, obj) and _container_sig(obj) == sig_before),
+             aliases=_shares_memory(obj, back) or _shares_memory(back, again))
+  # a result kept by the caller is unchanged by later calls (another value, and the same bytes again)
+  try:
+    with contextlib.redirect_stdout(sink):
+      serialization.msgpack_deserialize(serialization.msgpack_serialize([obj, {'later': np.arange(3)}]))
+      serialization.msgpack_deserialize(data)
+  except Exception:  # pylint: disable=broad-except
+    pass
+  obs['kept_unchanged'] = (_observe(back) == first)
   return obs
+
+
+def _container_sig(o):
+  """Identity / length / keys of every container and the identity of every leaf."""
+  if isinstance(o, dict):
+    return ('d', id(o), tuple(o.keys()), tuple(_container_sig(v) for v in o.values()))
+  if isinstance(o, (list, tuple)):
+    return ('l', id(o), len(o), tuple(_container_sig(v) for v in o))
+  return ('x', id(o))
+
+
+def _arrays_of(o, out):
+  if isinstance(o, dict):
+    for v in o.values():
+      _arrays_of(v, out)
+  elif isinstance(o, (list, tuple)):
+    for v in o:
+      _arrays_of(v, out)
+  elif isinstance(o, np.ndarray) and o.dtype != object and o.nbytes >= 2:   # CPython shares its 1-byte bytes objects
+    out.append(o)
+  return out
+
+
+def _shares_memory(a, b):
+  xs, ys = _arrays_of(a, []), _arrays_of(b, [])
+  return any(np.shares_memory(x, y) for x in xs for y in ys)
 
 
 def _observe_input_unchanged(spec, obj):
@@ -707,10 +800,18 @@ def _run_sqlite(case):
     obs = {'input': inputs}
     try:
       with contextlib.redirect_stdout(sink):
+        before = [(cid, _container_sig(ex), {k: _observe(v) for k, v in ex.items()}) for cid, ex in built]
+        form = len(case['clients']) * 7 + sum(len(f) for _, f in case['clients'])
         with sfd.SQLiteFederatedDataBuilder(path) as b:
           half = len(built) // 2
-          b.add_many(built[:half])
-          b.add_many(iter(built[half:]))
+          forms = [lambda l: l, iter, tuple, lambda l: (x for x in l), lambda l: map(lambda kv: kv, l),
+                   lambda l: dict(l).items(), lambda l: iter(tuple(l))]
+          b.add_many(forms[form % len(forms)](built[:half]))
+          b.add_many(forms[(form // 2 + 1) % len(forms)](built[half:]))
+          b.add_many([])                      # nothing to add is not an error
+          b.add_many(iter(()))
+        obs['inputs_unchanged'] = all(_container_sig(ex) == sig and {k: _observe(v) for k, v in ex.items()} == ob
+                                      for (cid, ex), (_, sig, ob) in zip(built, before))
     except Exception as ex:  # pylint: disable=broad-except
       obs.update(status='ser-error', err=_err(ex))
       return obs
@@ -775,6 +876,58 @@ def _interleaved_reads(sfd, path, full, salt):
                             for c, (c2, ds) in zip(fd.client_ids(), fd.clients())]
   fd = open_(4)
   out['zip_sizes_ids'] = [[c.hex(), int(n) if c2 == c else None, 'same'] for (c, n), c2 in zip(fd.client_sizes(), fd.client_ids())]
+  # the same listing twice on one object; one pass consumed in pieces with other queries in between
+  fd = open_(6)
+  first_pass = [c.hex() for c in fd.client_ids()]
+  out['ids_twice'] = [[c.hex(), None, 'same'] for c in fd.client_ids()] if first_pass == [c.hex() for c in fd.client_ids()] else []
+  fd = open_(7)
+  g = fd.clients()
+  head = list(itertools.islice(g, 1))
+  fd.num_clients()
+  iter(fd.client_ids())                 # a bare, never consumed iterator in between
+  for c, _ in fd.client_sizes():
+    break                               # a broken for loop in between
+  out['clients_in_pieces'] = [[c.hex(), None, ex(c, ds)] for c, ds in head + list(g)]
+  # two live iterators over the same listing of one object
+  fd = open_(8)
+  out['two_live_same_listing'] = [[c.hex(), int(n) if c2 == c else None, ex(c, ds) if c3 == c else {'t': 'foreign', 'type': 'misaligned'}]
+                                  for (c, n), c2, (c3, ds) in zip(fd.client_sizes(), fd.client_ids(), fd.clients())]
+  # two objects (two connections) on the same file, interleaved
+  fa, fb = open_(9), open_(10)
+  out['two_objects'] = [[c.hex(), int(fb.client_size(c)), ex(c, fb.get_client(c)) if c2 == c else {'t': 'foreign', 'type': 'misaligned'}]
+                        for c, (c2, _) in zip(fa.client_ids(), fb.clients())]
+  # get_clients: requested order (reversed, with a repeat), ids delivered as list / tuple / generator
+  fd = open_(11)
+  ids = [bytes.fromhex(h) for h in first_pass]
+  req = list(reversed(ids)) + ids[:1]
+  ok = True
+  for deliver in (list, tuple, iter, lambda l: (x for x in l)):
+    got = [(c, ex(c, ds)) for c, ds in fd.get_clients(deliver(req))]
+    ok = ok and [c for c, _ in got] == req and all(e == 'same' for _, e in got)
+  out['get_clients_forms'] = [[h, None, 'same'] for h in first_pass] if ok else []
+  # shuffled_clients: every epoch is a permutation of the clients with the same examples; seeded = reproducible
+  if ids:
+    fd = open_(12)
+    n = len(ids)
+    ep = list(itertools.islice(fd.shuffled_clients(buffer_size=max(1, n // 2), seed=0), 2 * n))
+    ep2 = [c for c, _ in itertools.islice(open_(13).shuffled_clients(buffer_size=max(1, n // 2), seed=0), 2 * n)]
+    ok = sorted(c for c, _ in ep[:n]) == sorted(ids) and sorted(c for c, _ in ep[n:]) == sorted(ids) and \
+        [c for c, _ in ep] == ep2 and all(ex(c, ds) == 'same' for c, ds in ep)
+    out['shuffled_epochs'] = [[h, None, 'same'] for h in first_pass] if ok else []
+  # identity preprocessors give the same examples; the raw blob parses with the public helper
+  fd = open_(14).preprocess_client(lambda cid, e: dict(e)).preprocess_batch(lambda e: dict(e))
+  out['identity_preprocess'] = [[c.hex(), int(fd.client_size(c)), ex(c, ds)] for c, ds in fd.clients()]
+  conn = sqlite3.connect(path)
+  rows = conn.execute('SELECT client_id, data, num_examples FROM federated_data ORDER BY rowid;').fetchall()
+  conn.close()
+  out['raw_blob_parse'] = [[c.hex(), int(n), 'same' if full.get(c.hex()) == _observe(sfd.decompress_and_deserialize(blob)) else 'different']
+                           for c, blob, n in rows]
+  # results kept by the caller are unchanged by later queries
+  fd = open_(15)
+  kept = [(c, ds, _observe(dict(ds.all_examples()))) for c, ds in fd.clients()]
+  list(fd.client_ids()), list(fd.clients()), [fd.get_client(c) for c, _, _ in kept]
+  out['kept_results'] = [[c.hex(), None, 'same' if _observe(dict(ds.all_examples())) == o and full.get(c.hex()) == o else 'changed']
+                         for c, ds, o in kept]
   fd = open_(5)
   sl = fd.slice(start=b'')          # a view over every client, sharing the connection
   r = []
@@ -840,11 +993,26 @@ def _run_ckptseq(case):
             kw['round_num'] = op[1]
           if op[2] is not None:
             kw['keep'] = op[2]
-          checkpoint.save_checkpoint(d, state, **kw)
+          form = (k + len(case['ops'])) % 5 if len(kw) == 2 else 0
+          before = _observe(state)
+          if form == 1:        # all positional
+            checkpoint.save_checkpoint(d, state, op[1], op[2])
+          elif form == 2:      # all keywords, numpy integer round number
+            checkpoint.save_checkpoint(root_dir=d, state=state, round_num=np.int64(op[1]), keep=op[2])
+          elif form == 3:      # directory with a trailing separator
+            checkpoint.save_checkpoint(d + os.sep, state, round_num=np.int32(op[1]), keep=op[2])
+          else:
+            checkpoint.save_checkpoint(d, state, **kw)
+          if _observe(state) != before:
+            return {'status': 'ok', 'loads': loads + [[-2, -2]], 'files': []}     # the saved state was modified
           k += 1
         else:
-          got = checkpoint.load_latest_checkpoint(d)
-          loads.append(None if got is None else [int(got[1]), _which_state(_observe(got[0]), nsaves, case['jax'])])
+          got = checkpoint.load_latest_checkpoint(d if len(loads) % 2 == 0 else d + os.sep)
+          again = checkpoint.load_latest_checkpoint(root_dir=d)
+          if (got is None) != (again is None) or (got is not None and (_observe(got[0]) != _observe(again[0]) or got[1] != again[1])):
+            loads.append([-3, -3])          # two loads of the same directory disagree
+          else:
+            loads.append(None if got is None else [int(got[1]), _which_state(_observe(got[0]), nsaves, case['jax'])])
     except Exception as ex:  # pylint: disable=broad-except
       return {'status': 'error', 'err': _err(ex), 'loads': loads}
     return {'status': 'ok', 'loads': loads, 'files': sorted(os.listdir(d))}
@@ -903,8 +1071,38 @@ def run(case):
 # --------------------------------------------------------------------------
 # oracle
 
+def _has_extra(spec):
+  if spec['t'] == 'extra':
+    return True
+  if spec['t'] == 'dict':
+    return any(_has_extra(v) for _, v in spec['items'])
+  if spec['t'] in ('list', 'tuple'):
+    return any(_has_extra(v) for v in spec['items'])
+  return False
+
+
+def _extra_oracle(spec, obs):
+  """Leaves of dtypes outside the property's list: accepted or rejected, but never altered."""
+  if obs['status'] != 'ok':
+    return []
+
+  def same(s, o):
+    if s['t'] == 'extra':
+      return o.get('t') == 'other' and o.get('dtype_str') == str(_extra_dtype(s['dtype'])) and o.get('shape') == s['shape'] \
+          and o.get('hex') == s['hex']
+    if s['t'] == 'dict':
+      return o.get('t') == 'dict' and len(o['items']) == len(s['items']) and \
+          all(a[0] == b[0] and same(a[1], b[1]) for a, b in zip(s['items'], o['items']))
+    return _first_diff(_expect(s), o) is None
+  if not same(spec, obs['value']):
+    return [('extra-dtype-altered', 'a leaf of a dtype outside the supported list was accepted and came back altered')]
+  return []
+
+
 def _tree_oracle(spec, obs, prefix=''):
   out = []
+  if _has_extra(spec):
+    return _extra_oracle(spec, obs)
   try:
     exp = _expect(spec)
     unsupported = None
@@ -920,7 +1118,11 @@ def _tree_oracle(spec, obs, prefix=''):
     if obs.get('stable') is False:
       out.append((prefix + 'unstable', 'deserialising the same bytes twice gave different values'))
     if obs.get('input_after') is False:
-      out.append((prefix + 'input-mutated', 'serialisation modified its input'))
+      out.append((prefix + 'input-mutated', 'serialisation modified its input (array bits, or a container\'s identity / keys / length)'))
+    if obs.get('aliases'):
+      out.append((prefix + 'result-aliases', 'a decoded array shares memory with the input or with another decoding of the same bytes'))
+    if obs.get('kept_unchanged') is False:
+      out.append((prefix + 'result-changed-later', 'a decoded value kept by the caller changed after later (de)serialisation calls'))
   else:
     if st == 'ok':
       out.append((prefix + 'unsupported-altered:' + unsupported,
@@ -996,6 +1198,8 @@ def oracle(case, obs):
   want_sizes = [[cid, feats[0][1]['shape'][0]] for cid, feats in clients]
   if obs['sizes'] != want_sizes or [[c, n] for c, n, _ in obs['single']] != want_sizes:
     out.append(('sqlite-sizes', 'client sizes differ from the number of examples written'))
+  if obs.get('inputs_unchanged') is False:
+    out.append(('sqlite-input-mutated', 'add_many modified the examples it was given'))
   inter = obs.get('interleaved', {})
   if 'error' in inter:
     out.append(('sqlite-interleaved', f'an interleaved read-back raised {inter["error"]}'))
@@ -1003,7 +1207,8 @@ def oracle(case, obs):
     want_rows = [[cid, feats[0][1]['shape'][0]] for cid, feats in clients]
     for pat, rows in inter.items():
       got_rows = [[c, n if n is not None else w[1]] for (c, n, _), w in zip(rows, want_rows + [[None, None]] * len(rows))]
-      if len(rows) != len(want_rows) or got_rows != want_rows or any(n is None and pat != 'zip_ids_clients' for _, n, _ in rows) \
+      no_size = ('zip_ids_clients', 'ids_twice', 'clients_in_pieces', 'get_clients_forms', 'shuffled_epochs', 'kept_results')
+      if len(rows) != len(want_rows) or got_rows != want_rows or any(n is None and pat not in no_size for _, n, _ in rows) \
           or any(e != 'same' for _, _, e in rows):
         out.append(('sqlite-interleaved',
                     f'{pat}: a lazy listing interleaved with other queries on the same object gave '
@@ -1090,6 +1295,8 @@ def _val(s):
 
 def encode(case, obs):
   k = case['kind']
+  if k == 'tree' and _has_extra(case['tree']):
+    return None
   if k == 'tree':
     c = f'(CValue {_val(obs["input"])})'
     st = obs['status']
